@@ -117,6 +117,22 @@ func (x *Exec) call(s *State, fr *Frame, call *ast.CallExpr) Value {
 	site := x.siteOrdinal(fr, callText)
 	x.beforeCall(s, fr, call, callText, site)
 	var res Value
+	if cf := x.contractFrame(fr); cf != nil && x.spec == 0 {
+		for _, t := range cf.contract.FrameCalls {
+			if t != callText {
+				continue
+			}
+			sig, _ := info.TypeOf(call.Fun).Underlying().(*types.Signature)
+			if sig == nil {
+				unsup("frame call of non-function %s", callText)
+			}
+			x.args(s, fr, call, sig)
+			x.note("assumed", "the call "+callText+" (code outside the engine's view) changes no memory the contract of "+x.topName+" talks about; its result is unknown")
+			res = x.resultOf(s, sig, "framed")
+			x.afterCall(s, fr, call, callText, site, res)
+			return res
+		}
+	}
 	fn := x.staticCallee(info, call)
 	if fn != nil {
 		var recv Value
@@ -1140,6 +1156,17 @@ func (x *Exec) pvcHelper(s *State, fr *Frame, name string, args []Value, call *a
 		}
 		same := And(Eq(a.Rgn, b.Rgn), Eq(Add64(a.Off, a.Len), Add64(b.Off, b.Len)), Sle(a.Len, b.Len))
 		return &Scalar{T: x.ctx.Share(Or(Eq(a.Len, I64(0)), same))}
+	case "pvc_same":
+		// the same byte string: equal contents and nil-ness (opaque mode), the same slice
+		// header otherwise
+		switch a := args[0].(type) {
+		case *Scalar:
+			return &Scalar{T: Eq(a.T, args[1].(*Scalar).T)}
+		case *SliceV:
+			b := args[1].(*SliceV)
+			return &Scalar{T: x.ctx.Share(And(Eq(a.Rgn, b.Rgn), Eq(a.Off, b.Off), Eq(a.Len, b.Len)))}
+		}
+		unsup("pvc_same on %T", args[0])
 	case "pvc_local":
 		a, ok := args[0].(*SliceV)
 		if !ok {
@@ -1430,12 +1457,30 @@ func (x *Exec) appendBuiltin(s *State, fr *Frame, call *ast.CallExpr) Value {
 	}
 	bv := x.expr(s, fr, call.Args[0])
 	if x.opaque && isByteSlice(t) {
+		var argv []Value
 		for _, a := range call.Args[1:] {
-			x.expr(s, fr, a)
+			argv = append(argv, x.expr(s, fr, a))
 		}
 		r := x.ctx.Fresh("bytes$append", SBytes)
+		bt, okb := bv.(*Scalar)
+		if okb && bt.T.Sort == SBytes && call.Ellipsis.IsValid() && len(argv) == 1 {
+			if src, ok := argv[0].(*Scalar); ok && src.T.Sort == SBytes {
+				// An opaque byte string stands for (contents, nil-ness); nothing in opaque mode
+				// can tell two slices with the same contents apart (no indexing, no writes).
+				// append(b, src...): same as b if src is empty; has the contents of src, and
+				// is not nil, if b is empty and src is not.
+				lb, ls := x.bytesLen(bt.T), x.bytesLen(src.T)
+				s.assume(Eq(x.bytesLen(r), Add64(lb, ls)))
+				s.assume(Implies(Eq(ls, I64(0)), Eq(r, bt.T)))
+				s.assume(Implies(And(Eq(lb, I64(0)), Slt(I64(0), ls)), Eq(r, src.T)))
+				s.assume(Implies(Slt(I64(0), Add64(lb, ls)), Not(x.bytesIsNil(r))))
+				x.note("assumed", "opaque byte strings: append(empty, s...) has the contents of s")
+				return &Scalar{T: r}
+			}
+		}
 		x.note("abstracted", "append on opaque byte slices yields an unknown byte string")
-		s.assume(Not(x.bytesIsNil(r)))
+		s.assume(Sle(I64(0), x.bytesLen(r)))
+		s.assume(Ule(x.bytesLen(r), BVLit(maxObj, 64)))
 		return &Scalar{T: r}
 	}
 	base := bv.(*SliceV)
